@@ -475,7 +475,93 @@ func runSchedDiff(outDir string, seed int64, tier string) {
 			}
 			return api, 2, nil
 		}}
-	scs := []schedScenario{lateAnswer, approve, reset}
+	// the observed node has lost its state and is being re-initialised: the operator submits the airgapped machine's answer to
+	// the reinit operation (a read-modify-write of the stored round) while the poller opens another round
+	mkFinishReinit := func(sameRound bool) schedScenario {
+		name := "ProcessOperation(result of the reinit operation) || poll(opening proposal of another round)"
+		if sameRound {
+			name = "ProcessOperation(result of the reinit operation) || poll(signing proposal for the re-initialised round)"
+		}
+		return schedScenario{name: name,
+			prepare: func(c *cluster, obs *vnode, round string) (func(n *vnode) error, int, error) {
+				dump := c.boardMessages()
+				// a fresh node state and a fresh machine (same mnemonic) for the observed participant
+				obs.ldb.VerifClose()
+				obs.stg.Close()
+				matches, _ := filepath.Glob(filepath.Join(obs.dir, "state*"))
+				for _, m := range matches {
+					os.RemoveAll(m)
+				}
+				if err := c.buildNodeServices(obs); err != nil {
+					return nil, 0, err
+				}
+				if err := obs.st.inner.SaveOffset(uint64(len(dump))); err != nil {
+					return nil, 0, err
+				}
+				obs.air.VerifCloseDB()
+				os.RemoveAll(filepath.Join(obs.dir, "airgapped"))
+				air, err := airgapped.NewMachine(filepath.Join(obs.dir, "airgapped"))
+				if err != nil {
+					return nil, 0, err
+				}
+				air.SetEncryptionKey([]byte("pw"))
+				if err := air.SetBaseSeed(testMnemonics[obs.idx%len(testMnemonics)]); err != nil {
+					return nil, 0, err
+				}
+				if err := air.InitKeys(); err != nil {
+					return nil, 0, err
+				}
+				air.SetResultFolder(filepath.Join(obs.dir, "results"))
+				obs.air = air
+				newKeys := map[string][]byte{}
+				for _, nd := range c.nodes {
+					newKeys[nd.name] = nd.kp.Pub
+				}
+				re, err := types.GenerateReDKGMessage(dump, newKeys)
+				if err != nil {
+					return nil, 0, err
+				}
+				payload, _ := json.Marshal(re)
+				if err := c.nodes[1].svc.ReInitDKG(&dto.ReInitDKGDTO{ID: re.DKGID, Payload: payload}); err != nil {
+					return nil, 0, err
+				}
+				for _, nd := range c.nodes {
+					c.pollOnce(nd, 0)
+				}
+				var reinitOp *types.Operation
+				for _, op := range obs.pendingOps() {
+					if string(op.Type) == "reinit_dkg" {
+						reinitOp = op
+					}
+				}
+				if reinitOp == nil {
+					return nil, 0, fmt.Errorf("the observed node offers no reinit operation")
+				}
+				path, err := obs.air.ProcessOperation(*reinitOp, true)
+				if err != nil {
+					return nil, 0, err
+				}
+				rb, _ := os.ReadFile(path)
+				os.Remove(path)
+				var res types.Operation
+				if err := json.Unmarshal(rb, &res); err != nil {
+					return nil, 0, err
+				}
+				if string(res.Event) != string(types.OperationProcessed) {
+					return nil, 0, fmt.Errorf("the machine answered the reinit operation with event %q", res.Event)
+				}
+				if sameRound {
+					if err := c.proposeData(c.nodes[1], round, map[string][]byte{"after": []byte("a batch proposed while the reinitialisation is finished")}); err != nil {
+						return nil, 0, err
+					}
+				} else if _, err := c.startDKG(2); err != nil {
+					return nil, 0, err
+				}
+				api := func(n *vnode) error { return n.svc.ProcessOperation(opToDTO(&res)) }
+				return api, 1, nil
+			}}
+	}
+	scs := []schedScenario{lateAnswer, approve, reset, mkFinishReinit(false), mkFinishReinit(true)}
 	for _, sc := range scs {
 		r.scenario(outDir, sc, 3, 2)
 	}
